@@ -132,6 +132,12 @@ func (l *Lexer) NextToken() token.Token {
 	return l.newToken(token.HTML, l.readHTML())
 }
 
+// IsInsideCode tells if the lexer is currently between "{{" and "}}",
+// inside of directive's parentheses, or inside of an unclosed comment
+func (l *Lexer) IsInsideCode() bool {
+	return !l.isHTML
+}
+
 func (l *Lexer) bracesToken(tok token.TokenType, literal string) token.Token {
 	l.isHTML = tok != token.LBRACES
 
